@@ -104,12 +104,12 @@ def check(ctx, case):
                         break
             if why in ("goal", "condition") and _start_end_same_fluent(plan):
                 shape += ":start+end-effects-on-one-fluent"
+            elif why == "condition" and _effect_vs_own_condition(plan):
+                shape += ":action-writes-fluent-of-its-own-later-condition"
             elif why in ("goal", "condition") and _opposite_bool_effects_one_timing(plan):
                 # add-after-delete inside ONE timing of a durative action (f := true and f := false at end): the
                 # compiled instantaneous action keeps them in an order where the deletion wins (known finding)
                 shape += ":opposite-boolean-effects-at-one-timing"
-            elif why == "condition" and _effect_vs_own_condition(plan):
-                shape += ":action-writes-fluent-of-its-own-later-condition"
             sig = f"converted-plan-invalid:{why}{shape}"
             if shape.endswith(":start+end-effects-on-one-fluent"):
                 sig = "converted-plan-invalid:start+end-effects-on-one-fluent"
